@@ -29,8 +29,15 @@ func (e *Engine) opaqueOf(st *State, v Value) (StrV, bool) {
 		if ao, ok := st.obj(x.obj).arr.(AOpaque); ok {
 			return ao.s, true
 		}
+		// long byte strings (keys): identified by the memory they live in (same slice => same string;
+		// two equal copies are treated as possibly different, which only adds behaviours)
+		if n, ok := constInt(x.ln); ok && n > 16 {
+			if off, ok2 := constInt(x.off); ok2 {
+				return StrV{k: strOpaque, tag: fmt.Sprintf("mem/%d", n), t: e.cint(int64(x.obj)*100000+off, 64, true).t}, true
+			}
+		}
 		// ordinary bytes: identify the string by its contents when the length is concrete
-		if n, ok := constInt(x.ln); ok && n <= 64 {
+		if n, ok := constInt(x.ln); ok && n <= 16 {
 			arr := st.obj(x.obj).arr
 			bs := make([]Term, n)
 			allConst := true
@@ -153,18 +160,36 @@ func (e *Engine) hashInvoke(st *State, f *Frame, res Value, set func(Value), iv 
 			ts = append(ts, mts...)
 		}
 		n := map[string]int{"sha1": 20, "sha256": 32, "md5": 16}[algo]
-		var d Term
-		if len(ts) == 0 {
-			d = e.tb.UF(ufName("digest", shape), e.intSortOf(64))
-		} else {
-			d = e.tb.UF(ufName("digest", shape), e.intSortOf(64), ts...)
+		// one uninterpreted function per digest byte: equal inputs give equal digests, nothing else is assumed
+		var a ArrT = AZero{}
+		for i := 0; i < n; i++ {
+			name := ufName(fmt.Sprintf("digest%d", i), shape)
+			var b Term
+			if len(ts) == 0 {
+				b = e.tb.UF(name, e.byteSort())
+			} else {
+				b = e.tb.UF(name, e.byteSort(), ts...)
+			}
+			if e.ia {
+				st.pc = append(st.pc, e.tb.ILe(e.tb.Int(0), b), e.tb.ILt(b, e.tb.Int(256)))
+			}
+			a = AStore{a, e.idx(int64(i)), b}
 		}
-		dig := StrV{k: strOpaque, tag: "digest:" + shape, t: d}
-		out := e.opaqueBytesSlice(st, dig, n)
 		if b, ok := args[0].(SliceV); ok && b.obj != 0 && !isConstZero(b.ln) {
-			panic(hardErr("hash.Sum appending to a non-empty prefix"))
+			// Sum(prefix): prefix ++ digest
+			base := e.mkCopy(AZero{}, st.obj(b.obj).arr, e.idx(0), b.off, b.ln)
+			base = e.mkCopy(base, a, b.ln, e.idx(0), e.idx(int64(n)))
+			id := e.newObj(st, &Object{kind: kBytes, arr: base})
+			nl := e.idxAdd(b.ln, e.idx(int64(n)))
+			ub := 0
+			if c, ok := constInt(nl); ok {
+				ub = int(c)
+			}
+			set(SliceV{obj: id, off: e.idx(0), ln: nl, cap: nl, bytes: true, ub: ub})
+			return true
 		}
-		set(out)
+		id := e.newObj(st, &Object{kind: kBytes, arr: a})
+		set(SliceV{obj: id, off: e.idx(0), ln: e.idx(int64(n)), cap: e.idx(int64(n)), bytes: true, ub: n})
 	case "Reset":
 		o := st.mut(id)
 		o.fields = o.fields[:2]
